@@ -1,5 +1,6 @@
 import Driver.Pure
 import Driver.Seq
+import Qv.Spec.Image
 
 open Qv.Driver
 
@@ -10,6 +11,19 @@ partial def loop (h : IO.FS.Stream) (out : IO.FS.Stream) (f : String → String)
   out.putStrLn (f l)
   loop h out f
 
+/-- one image path per stdin line → `<path> ok | fail … | parse-error …` -/
+partial def validLoop (stdin stdout : IO.FS.Stream) : IO Unit := do
+  let line ← stdin.getLine
+  if line.isEmpty then return ()
+  let p := if line.endsWith "\n" then (line.dropEnd 1).toString else line
+  let bytes ← IO.FS.readBinFile p
+  match Qv.Spec.parseHdr bytes with
+  | .error e => stdout.putStrLn s!"{p} parse-error {e}"
+  | .ok h =>
+    let v := Qv.Spec.judge { b := bytes, h := h }
+    stdout.putStrLn s!"{p} {v.text}"
+  validLoop stdin stdout
+
 def main (args : List String) : IO UInt32 := do
   let stdin ← IO.getStdin
   let stdout ← IO.getStdout
@@ -17,6 +31,8 @@ def main (args : List String) : IO UInt32 := do
   | ["pure"] => loop stdin stdout respondPure; return 0
   | ["seq", path] =>
     let lines ← IO.FS.lines path
-    runSeq lines stdout
+    let dir := (System.FilePath.parent path).map (·.toString) |>.getD "."
+    runSeq dir lines stdout
     return 0
-  | _ => IO.eprintln "usage: qvdrv pure < requests | qvdrv seq <file>"; return 2
+  | ["valid"] => validLoop stdin stdout; return 0
+  | _ => IO.eprintln "usage: qvdrv pure < requests | qvdrv seq <file> | qvdrv valid < paths"; return 2
